@@ -869,6 +869,10 @@ class Neg(Kind):
 
     def plan(self, rng, pool):
         a, w = pool.any()
+        if w < 60 and rng.random() < 0.12:
+            # result wider than the operand: accepted by the constructor; what "negate" means then is not documented
+            # (the library negates the zero-extended operand), so function oracles skip it ('amb') - co-simulation does not
+            return {'amb': True}, [a], [w + rng.choice([1, 2, 8])]
         return {}, [a], [w]
 
     def build(self, parent, nm, ins, outs, p):
@@ -1176,7 +1180,7 @@ class BinaryToBCD(Kind):
     weight = 0.4
 
     def plan(self, rng, pool):
-        a, w = pool.any(4, 20)
+        a, w = pool.any(1, 20)
         digits = rng.randint(1, len(str((1 << w) - 1)) + 1)
         return {}, [a], [4 * digits]
 
@@ -1914,3 +1918,44 @@ class DelayLineZero(SeqKind):
 
     def nxt(self, p, st, iv, iw, ow):
         return 0
+
+
+class _SimPeekBlock(py4hw.Logic):
+    """a user-written monitor that asks its system for the simulator from inside clock() (e.g. to read the cycle
+    count or to stop the run on a condition); the output registers its input like a Reg"""
+
+    def __init__(self, parent, name, a, r):
+        super().__init__(parent, name)
+        self.a = self.addIn('a', a)
+        self.r = self.addOut('r', r)
+
+    def clock(self):
+        top = self
+        while top.parent is not None:
+            top = top.parent
+        sim = top.getSimulator()
+        cycles = sim.total_clks        # (only looked at)
+        self.r.prepare(self.a.get())
+
+
+@register
+class SimPeek(SeqKind):
+    name = 'SimPeek'
+    tags = ('seq', 'extra', 'simonly', 'userblock', 'simpeek')
+    weight = 0.8
+
+    def plan(self, rng, pool):
+        a, w = pool.any()
+        return {}, [a], [w]
+
+    def build(self, parent, nm, ins, outs, p):
+        return _SimPeekBlock(parent, nm, ins[0], outs[0])
+
+    def init(self, p, iw, ow):
+        return 0
+
+    def outs(self, p, st, iv, iw, ow):
+        return [st]
+
+    def nxt(self, p, st, iv, iw, ow):
+        return M(iv[0], ow[0])
